@@ -115,8 +115,20 @@ def c14(c):
         jobs += [_exh(c, 'Delta', 'Delta', _variant(c, 'Delta', x, not withhold)) for x in ['quick_rec.cfg', 'quick_np.cfg']]
     nj = len(jobs)
     jobs += [_witness(c, 'Delta', 'Delta', v('ascoded.cfg')), _sim(c, 'Delta', 'DeltaSim', v('sim.cfg'), 600 if quick else 8000, 30)]
+    # keyed path: behaviours of spec/SharedPoll (per-key deltaReady / version / base version), delta monitors only
+    c._specdir('SharedPoll')
+    jobs += [_sim(c, 'SharedPoll', 'SharedPollSim', 'sim_v.cfg', 80 if quick else 1500, 50)]
+    # map paths: per-key bases (sequential model of the map subscribe protocol outcomes)
+    jobs += [_exh(c, 'Delta', 'DeltaMap', 'map_quick.cfg'), _witness(c, 'Delta', 'DeltaMap', 'map_ascoded.cfg'),
+             _sim(c, 'Delta', 'DeltaMap', 'map_sim.cfg', 150 if quick else 3000, 30)]
     out = _par(jobs)
-    wit, behs = out[nj], out[nj + 1]
+    wit, behs, kbehs, mwit, mbehs = out[nj], out[nj + 1], out[nj + 2], out[nj + 4], out[nj + 5]
+    res = c.harness(binp, 'mapdelta', {'compare': False, 'behaviours': [mwit]}, timeout=300)
+    _absorb_delta(c, res, total)
+    res = c.harness(binp, 'mapdelta', {'compare': True, 'behaviours': mbehs}, timeout=1800)
+    _absorb_delta(c, res, total)
+    res = c.harness(binp, 'sharedpoll', {'compare': False, 'versioned': True, 'behaviours': kbehs}, timeout=1800)
+    _absorb_delta(c, res, total)
     res = c.harness(binp, 'delta', {'hist_size': 2, 'compare': False, 'behaviours': [wit]}, timeout=300)
     _absorb_delta(c, res, total)
     c.cov['samples'] += res['samples'][:1]
